@@ -1,5 +1,6 @@
 """PDF generation management."""
 
+from codecs import BOM_UTF16_BE
 from importlib.resources import files
 
 import pydyf
@@ -299,8 +300,14 @@ def generate_pdf(document, target, zoom, **options):
     # Anchors
     if pdf_names:
         # Anchors are name trees that have to be sorted
+        # sorted by the bytes of the key as written in the PDF
+        def key_bytes(anchor):
+            name = anchor[0]
+            if name.isascii():
+                return name.encode('ascii')
+            return BOM_UTF16_BE + name.encode('utf-16-be')
         name_array = pydyf.Array()
-        for anchor in sorted(pdf_names):
+        for anchor in sorted(pdf_names, key=key_bytes):
             name_array.append(pydyf.String(anchor[0]))
             name_array.append(anchor[1])
         dests = pydyf.Dictionary({'Names': name_array})
